@@ -149,6 +149,35 @@ def cases_for(spec, variant=None, limit=400, seed=0, extra_vals=()):
         combos = list(itertools.product(*doms))
     else:
         combos = [tuple(rng.choice(d) for d in doms) for _ in range(limit)]
+    # state-dependent arguments: ids and id lists drawn from the chosen network make preconditions such as
+    # "bunch within the network" / "n is a node" hold far more often than independent draws
+    net_idx = [i for i, (n, ty) in enumerate(names) if ty.startswith("net:")]
+    if total > limit and net_idx:
+        adapted = []
+        for combo in combos:
+            st = combo[net_idx[0]]
+            nids = [r[0] for r in st["node"]]
+            eids = [r[0] for r in st["edge"]]
+            combo = list(combo)
+            for i, (name, ty) in enumerate(names):
+                if ty != "val":
+                    continue
+                r = rng.random()
+                if name == "bunch":
+                    pool = eids if "edgestats" in spec.qual else nids
+                    combo[i] = L(*rng.sample(pool, rng.randint(0, len(pool)))) if r < 0.9 else combo[i]
+                elif name in ("order", "weight", "degree"):
+                    combo[i] = NONE if r < 0.6 else (I(rng.randint(0, 2)) if r < 0.9 else combo[i])
+                elif r < 0.2 and nids:
+                    combo[i] = rng.choice(nids)
+                elif r < 0.35 and eids:
+                    combo[i] = rng.choice(eids)
+                elif r < 0.45 and nids:
+                    combo[i] = L(*rng.sample(nids, rng.randint(0, len(nids))))
+                elif r < 0.55 and eids:
+                    combo[i] = L(*rng.sample(eids, rng.randint(0, len(eids))))
+            adapted.append(tuple(combo))
+        combos = adapted
     out = []
     for combo in combos:
         params, state = [], {}
